@@ -56,10 +56,13 @@ static std::string jstr(std::string const &s){ std::string r = "\""; for(char c 
 
 // ---------------------------------------------------------------- tokens
 // model value of output k at multi-index p supplied in epoch e (spec: Grid!Tok)
+// the scenario's salt permutes which points carry the large values (salt 0: increasing with the index), so that the points
+// a surplus refinement flags differ from scenario to scenario
+static int tok_salt = 0;
 static double tok(const int *p, int d, int k, int e){
     static const long long W[3] = {1, 100, 10000};
     long long v = (long long) e * 4000000LL + (long long) k * 1000000LL;
-    for(int j=0; j<d && j<3; j++) v += W[j] * (long long) (p[j] + 1);
+    for(int j=0; j<d && j<3; j++) v += W[j] * ((tok_salt == 0) ? (long long) (p[j] + 1) : (((long long) (p[j] + 1) * (long long) (1 + tok_salt)) % 97LL));
     return (double) v;
 }
 
@@ -921,8 +924,9 @@ int main(int argc, char **argv){
         if (cmd == "SCEN"){
             if (scen > 0) fprintf(out, "{\"e\":\"End\"}\n");
             std::string label; ls >> label; scen++; step = 0; skip_rest = false; pending.clear();
+            tok_salt = 0; ls >> tok_salt; if (tok_salt < 0 || tok_salt > 95) tok_salt = 0;
             for(auto &s : slots){ s.g = TasmanianSparseGrid(); s.obase = 0; }
-            fprintf(out, "{\"e\":\"Reset\",\"scen\":%s}\n", jstr(label).c_str());
+            fprintf(out, "{\"e\":\"Reset\",\"scen\":%s,\"salt\":%d}\n", jstr(label).c_str(), tok_salt);
             continue;
         }
         if (cmd == "OBS"){ ls >> obs_mask; continue; }
